@@ -416,7 +416,7 @@ def same_loops(l1, l2, whole_values=True, why=None):
 
 def show(items, depth=0):
     out = []
-    for it in tidy(items) if depth == 0 else items:
+    for it in tidy(items):
         if it[0] in ("B", "L", "abs"):
             v = it[1] if is_unknown(it[1]) else norm(it[1])
             out.append(f"{it[0]}[{v!r}]")
@@ -427,6 +427,43 @@ def show(items, depth=0):
         elif it[0] == "loop":
             out.append(f"{it[1].kind}({norm(it[1].test)!r}){{{show(it[1].items, depth + 1)}}}")
     return " ".join(out)
+
+
+def map_items(items, f):
+    """the same tree with every formula passed through f"""
+    out = []
+    for it in items:
+        if it[0] in ("B", "L", "abs"):
+            out.append((it[0], f(it[1])))
+        elif it[0] == "if":
+            out.append(("if", f(it[1]), map_items(it[2], f), map_items(it[3], f)))
+        elif it[0] == "loop":
+            out.append(("loop", map_loop(it[1], f)))
+        else:
+            out.append(it)
+    return out
+
+
+def map_loop(lp, f):
+    new = Loop(lp.kind, f(lp.test), map_items(lp.items, f), [(f(p), v if v is None or is_unknown(v) else f(v)) for p, v in lp.carry],
+               f(lp.frame), lp.node, lp.entry)
+    new.exits = lp.exits
+    return new
+
+
+def renamer(mapping):
+    """f for map_items: atoms equal to a key of `mapping` (list of (formula, replacement)) are replaced, everywhere inside formulas"""
+    keys = [(as_atom(k), v) for k, v in mapping if as_atom(k) is not None]
+
+    def pre(d):
+        for kd, v in keys:
+            if kd == d:
+                return v
+        return None
+
+    def f(r):
+        return rewrite(r, pre=pre)
+    return f
 
 
 def total(items, unit):
@@ -470,8 +507,8 @@ class _Frame:
             self.off[u] = F.fn("after", self.id, F.const(self.nopq), u)
 
 
-class _Exit(Exception):
-    pass
+class Stuck(Exception):
+    """the walker met a construct it cannot lower (not an Unsupported: Evaluator.ev would swallow that into an Unknown value)"""
 
 
 def _is_str(v):
@@ -505,7 +542,23 @@ class CEval(AutoEvaluator):
                 its.append(need(v))
             return F.fn("comp", *its)
         if isinstance(node, ast.JoinedStr):
-            return F.sym("fstr:" + ast.unparse(node))
+            parts = []
+            for v in node.values:
+                if isinstance(v, ast.Constant):
+                    parts.append(F.sym(repr(v.value)))
+                elif isinstance(v, ast.FormattedValue) and v.conversion == -1 and v.format_spec is None:
+                    x = self._ev(v.value)
+                    if is_unknown(x) or isinstance(x, tuple):
+                        return F.sym("fstr:" + ast.unparse(node))
+                    parts.append(x)
+                else:
+                    return F.sym("fstr:" + ast.unparse(node))
+            if not parts:
+                return F.sym("''")
+            out = parts[0]
+            for x in parts[1:]:
+                out = F.fn("cat", out, x)
+            return out
         if isinstance(node, ast.Constant) and isinstance(node.value, bytes):
             return F.sym(repr(node.value))
         if isinstance(node, ast.Compare) and len(node.ops) == 1 and isinstance(node.comparators[0], (ast.Tuple, ast.List)) \
@@ -519,6 +572,20 @@ class CEval(AutoEvaluator):
             if is_unknown(a) or is_unknown(b):
                 return a if is_unknown(a) else b
             return F.fn("cmp:" + type(node.ops[0]).__name__, need(a), need(b))
+        if isinstance(node, ast.IfExp):
+            c = self.decide(node.test)
+            if c is True:
+                return self._ev(node.body)
+            if c is False:
+                return self._ev(node.orelse)
+            cv = self._ev(node.test)
+            n0 = len(self.walker.events)
+            a, b = self._ev(node.body), self._ev(node.orelse)
+            if len(self.walker.events) != n0:
+                raise Stuck(f"conditional expression with file effects at line {node.lineno}")
+            if isinstance(cv, tuple):
+                cv = Unknown("test on a tuple")
+            return phi(cv, a, b)
         if isinstance(node, ast.Lambda):
             return F.sym("lambda:" + ast.unparse(node))
         if isinstance(node, ast.Dict):
@@ -528,13 +595,15 @@ class CEval(AutoEvaluator):
 
 class Walker:
     def __init__(self, ctx, rel, cls, fn, env=None, cond=None, no_inline=(), extra_inline=(), files=(FILE,), small=None, follow=None,
-                 indirect=None):
+                 indirect=None, pinned=None):
         self.ctx, self.rel, self.cls, self.fn = ctx, rel, cls, fn
         self.cond = cond
+        self.pinned = dict(pinned or {})
         self.files = list(files)
         self.no_inline = set(no_inline)
         self.extra_inline = set(extra_inline)
         self.indirect = indirect or {}       # {id(Call node) or local name: FunctionDef} calls through a local that holds a function
+        self.follow = True if follow is None else follow
         self.small = {} if small is None else small
         self._int = M.int_binop(self.small)
         self.top = _Frame(F.sym("T"))
@@ -547,14 +616,20 @@ class Walker:
         self.guard = ()
         self.returns = []         # (value, guard, node) of the walked function itself
         self._ret_stack = [self.returns]
+        self._breaks = []         # per open loop: environments at its `break` statements
         self.table = _method_table(ctx, rel, cls)
         self.effects = _file_effects(self.table)
-        self.ev = self._new_ev(fn, env or {})
+        env = dict(env or {})
+        a = fn.args
+        for x in a.posonlyargs + a.args + a.kwonlyargs + ([a.vararg] if a.vararg else []) + ([a.kwarg] if a.kwarg else []):
+            if x.arg not in env and x.arg not in ("self", "cls"):
+                env[x.arg] = F.sym(x.arg)
+        self.ev = self._new_ev(fn, env)
         self.status = None
 
     # ------------------------------------------------------------------ plumbing
     def _new_ev(self, fn, env):
-        return CEval(fn, self, src=self.ctx.src, cond=self.cond, binop=self._binop, env=env)
+        return CEval(fn, self, src=self.ctx.src, cond=self.cond, binop=self._binop, env=env, pinned=self.pinned)
 
     @property
     def frame(self):
@@ -562,7 +637,7 @@ class Walker:
 
     def emit(self, unit, n, node=None):
         if is_unknown(n):
-            raise Unsupported(f"consumption of unknown size ({n.why}) at line {getattr(node, 'lineno', '?')}")
+            raise Stuck(f"consumption of unknown size ({n.why}) at line {getattr(node, 'lineno', '?')}")
         fr = self.frame
         fr.items.append((unit, need(n)))
         fr.off[unit] = fr.off[unit] + need(n)
@@ -584,7 +659,16 @@ class Walker:
         if isinstance(op, ast.Add) and (_is_str(a) or _is_str(b)):
             return F.fn("cat", need(a), need(b))
         if isinstance(op, (ast.RShift, ast.BitAnd)):
-            a = self._split_words(need(a))
+            a, b = need(a), need(b)
+            if isinstance(op, ast.BitAnd) and b.is_const() and b.const_value() == 1:
+                return F.fn("odd", a)
+            wide = b.is_const() and b.const_value() == (16 if isinstance(op, ast.RShift) else 0xFFFF)
+            r = self._int(node, self._split_words(a) if wide else a, b, ev)
+            if is_unknown(r):
+                # not a 16-bit split of a word: keep the operation opaque (a mask that keeps fewer bits than the field has
+                # then simply differs from the expected low half)
+                return F.fn("shr" if isinstance(op, ast.RShift) else "and", a, b)
+            return r
         return self._int(node, a, b, ev)
 
     def _split_words(self, a):
@@ -664,7 +748,7 @@ class Walker:
             for h in st.handlers:
                 items, _s, _o = self.sub_items(h.body)
                 if tidy(items):
-                    raise Unsupported(f"file consumption inside an exception handler (line {st.lineno})")
+                    raise Stuck(f"file consumption inside an exception handler (line {st.lineno})")
             if r is None:
                 r = self.run(st.orelse)
             r2 = self.run(st.finalbody)
@@ -681,13 +765,15 @@ class Walker:
             return "raise"
         if isinstance(st, ast.Break):
             self.frame.items.append(("exit", "break"))
+            if self._breaks:
+                self._breaks[-1].append(dict(self.ev.env))
             return "break"
         if isinstance(st, ast.Continue):
             self.frame.items.append(("exit", "continue"))
             return "continue"
         if isinstance(st, (ast.Pass, ast.Assert, ast.Import, ast.ImportFrom, ast.Global, ast.Nonlocal, ast.Delete, ast.FunctionDef, ast.ClassDef)):
             return None
-        raise Unsupported(f"statement {type(st).__name__} at line {st.lineno}")
+        raise Stuck(f"statement {type(st).__name__} at line {st.lineno}")
 
     def assign(self, target, v, st):
         ev = self.ev
@@ -745,7 +831,7 @@ class Walker:
                     fr.opaque()
         else:
             if is_unknown(cv):
-                raise Unsupported(f"branches that consume differently under a test that cannot be lowered ({cv.why}) at line {st.lineno}")
+                raise Stuck(f"branches that consume differently under a test that cannot be lowered ({cv.why}) at line {st.lineno}")
             fr.items.append(("if", need(cv), itA, itB))
             if stA is None and stB is None:
                 fr.opaque()
@@ -868,20 +954,28 @@ class Walker:
         self.frames.append(fr)
         g0 = self.guard
         self.guard = g0 + ((test, True),) if not always else g0
+        self._breaks.append([])
         try:
             status = self.run(st.body)
         finally:
             self.frames.pop()
             self.guard = g0
+            breaks = self._breaks.pop()
         carry = [(p, ev.env.get(nm)) for nm, p in ph.items() if not is_unknown(p)]
         lp = Loop("while", test, fr.items, carry, fid, st, entry)
         lp.exits = status
         if is_unknown(test):
-            raise Unsupported(f"loop condition at line {st.lineno} cannot be lowered ({test.why})")
+            raise Stuck(f"loop condition at line {st.lineno} cannot be lowered ({test.why})")
         parent.items.append(("loop", lp))
         parent.opaque()
-        for nm, p in ph.items():
-            ev.env[nm] = F.fn("fin", p) if not is_unknown(p) else F.fn("fin", fid, F.sym(nm))
+        if always and len(breaks) == 1:
+            # `while 1: ... break`: the loop is left at its only break, with the values the locals have there
+            for nm in ph:
+                v = breaks[0].get(nm)
+                ev.env[nm] = v if v is not None else Unknown(f"`{nm}` is not bound at the break of the loop at line {st.lineno}")
+        else:
+            for nm, p in ph.items():
+                ev.env[nm] = F.fn("fin", p) if not is_unknown(p) else F.fn("fin", fid, F.sym(nm))
         if st.orelse:
             self.run(st.orelse)
         return None
@@ -937,7 +1031,7 @@ class Walker:
         else:
             test = F.fn("count", need(n)) if n is not None and not is_unknown(n) else itv
             if test is None or is_unknown(test):
-                raise Unsupported(f"`for` at line {st.lineno} consumes from the file over an iterable that cannot be lowered")
+                raise Stuck(f"`for` at line {st.lineno} consumes from the file over an iterable that cannot be lowered")
             lp = Loop("for", test, fr.items, carry, fid, st, entry)
             lp.exits = status
             parent.items.append(("loop", lp))
@@ -975,7 +1069,7 @@ class Walker:
             pos, kws = self._args(node, ev)
             if m == "read":
                 if len(pos) != 1:
-                    raise Unsupported(f"read() of the whole file at line {node.lineno}")
+                    raise Stuck(f"read() of the whole file at line {node.lineno}")
                 return self.do_read(pos[0], node)
             if m == "seek":
                 whence = pos[1] if len(pos) > 1 else kws.get("whence", ZERO)
@@ -984,7 +1078,7 @@ class Walker:
                     self.events.append(("seek", pos[0], node))
                     return F.sym("None")
                 if is_unknown(pos[0]) or isinstance(pos[0], tuple):
-                    raise Unsupported(f"absolute seek to an unknown position at line {node.lineno}")
+                    raise Stuck(f"absolute seek to an unknown position at line {node.lineno}")
                 self.frame.items.append(("abs", need(pos[0])))
                 self.frame.opaque()
                 self.events.append(("abs", pos[0], self.guard, node))
@@ -1000,17 +1094,17 @@ class Walker:
                 return F.fn("tell", fr.id, fr.off["B"], fr.off["L"])
             if m in ("close", "flush"):
                 return F.sym("None")
-            raise Unsupported(f"file method {m} at line {node.lineno}")
+            raise Stuck(f"file method {m} at line {node.lineno}")
         # ---- np.fromfile
         if name in ("np.fromfile", "numpy.fromfile"):
             pos, kws = self._args(node, ev)
             a = dict(zip(("file", "dtype", "count", "sep", "offset"), pos))
             a.update(kws)
             if not self.is_file(a.get("file")):
-                raise Unsupported(f"np.fromfile from something that is not the file being read (line {node.lineno})")
+                raise Stuck(f"np.fromfile from something that is not the file being read (line {node.lineno})")
             dt, cnt = a.get("dtype"), a.get("count")
             if dt is None or cnt is None or is_unknown(dt) or is_unknown(cnt) or isinstance(dt, tuple) or isinstance(cnt, tuple):
-                raise Unsupported(f"np.fromfile without a dtype and a count that can be lowered (line {node.lineno})")
+                raise Stuck(f"np.fromfile without a dtype and a count that can be lowered (line {node.lineno})")
             fr = self.frame
             at = F.fn("rd", fr.id, fr.off["B"], F.fn("itemsize", dt) * cnt)
             self.emit("B", F.fn("itemsize", dt) * cnt, node)
@@ -1021,7 +1115,7 @@ class Walker:
             pos, kws = self._args(node, ev)
             if self.is_file(pos[0]):
                 if len(pos) != 2:
-                    raise Unsupported(f"islice over the file with start/step (line {node.lineno})")
+                    raise Stuck(f"islice over the file with start/step (line {node.lineno})")
                 fr = self.frame
                 at = F.fn("lns", fr.id, fr.off["L"], need(pos[1]))
                 self.emit("L", pos[1], node)
@@ -1049,11 +1143,11 @@ class Walker:
             pos, kws = self._args(node, ev)
             if name in ("struct.unpack", "struct.unpack_from"):
                 if len(pos) < 2:
-                    raise Unsupported(f"struct.unpack call at line {node.lineno}")
+                    raise Stuck(f"struct.unpack call at line {node.lineno}")
                 fmt, data = pos[0], pos[1]
             else:
                 if len(pos) < 1:
-                    raise Unsupported(f"unpack call at line {node.lineno}")
+                    raise Stuck(f"unpack call at line {node.lineno}")
                 fmt, data = F.fn("structof", need(structobj)) if structobj is not None and not is_unknown(structobj) else Unknown("struct object"), pos[0]
             if is_unknown(data) or isinstance(data, tuple):
                 return data if is_unknown(data) else Unknown("unpack of a tuple")
@@ -1063,18 +1157,18 @@ class Walker:
         target = None
         if id(node) in self.indirect:
             target = self.indirect[id(node)]
-        elif isinstance(func, ast.Name) and func.id in self.indirect and func.id in ev.env or \
-                isinstance(func, ast.Name) and func.id in self.indirect and func.id not in self.table:
+        elif isinstance(func, ast.Name) and func.id in self.indirect:
             target = self.indirect[func.id]
-        elif name in self.table and name not in self.no_inline:
+        elif self.follow and name in self.table and name not in self.no_inline:
             f2 = self.table[name]
             if name in self.extra_inline or f2 in self.effects or _is_getter(f2):
                 target = f2
         if target is not None:
             return self.inline(target, node, ev, name)
         pos, kws = self._args(node, ev)
+        callee = ev.env.get(func.id) if isinstance(func, ast.Name) else None
         self.events.append(("call", name if name is not None else ("." + func.attr if isinstance(func, ast.Attribute) else None), pos, kws,
-                            self.guard, node))
+                            self.guard, node, callee, self.frame.id))
         return self._opaque(name, recv, pos, kws, node)
 
     def _opaque(self, name, recv, pos, kws, node):
@@ -1111,7 +1205,7 @@ class Walker:
 
     def do_read(self, n, node):
         if is_unknown(n) or isinstance(n, tuple):
-            raise Unsupported(f"read of a size that cannot be lowered at line {node.lineno}" + (f" ({n.why})" if is_unknown(n) else ""))
+            raise Stuck(f"read of a size that cannot be lowered at line {node.lineno}" + (f" ({n.why})" if is_unknown(n) else ""))
         fr = self.frame
         at = F.fn("rd", fr.id, fr.off["B"], need(n))
         self.emit("B", n, node)
@@ -1120,21 +1214,21 @@ class Walker:
 
     def inline(self, fn2, node, ev, name):
         if self.depth >= 6 or fn2 in self.stack:
-            raise Unsupported(f"call chain too deep / recursive at {name} (line {node.lineno})")
+            raise Stuck(f"call chain too deep / recursive at {name} (line {node.lineno})")
         a = fn2.args
         params = [x.arg for x in a.posonlyargs + a.args]
         if params and params[0] in ("self", "cls") and not any(isinstance(d, ast.Name) and d.id == "staticmethod" for d in fn2.decorator_list):
             params = params[1:]
         pos, kws = self._args(node, ev)
         if a.vararg or a.kwarg or len(pos) > len(params):
-            raise Unsupported(f"call of {name} with a signature that cannot be bound (line {node.lineno})")
+            raise Stuck(f"call of {name} with a signature that cannot be bound (line {node.lineno})")
         env = dict(zip(params, pos))
         env.update({k: v for k, v in kws.items() if k in params})
         dflt = dict(zip(params[::-1], (a.defaults or [])[::-1]))
         for p_ in params:
             if p_ not in env:
                 if p_ not in dflt:
-                    raise Unsupported(f"call of {name}: parameter {p_} not bound (line {node.lineno})")
+                    raise Stuck(f"call of {name}: parameter {p_} not bound (line {node.lineno})")
                 env[p_] = ev.ev(dflt[p_])
         # attributes of self assigned by the caller so far stay visible to the callee
         for k, v in ev.env.items():
